@@ -101,6 +101,8 @@ Inductive vcase :=
     (* observed bytesToItemIndex / bytesToItemIndexArray: class 0 ok, 1 value not set, 2 invalid *)
 | CEnc (n : N) (l : list N) (b1 b2 : list N)
 | CRetry (scenario wraps cls : nat)
+| CDone (pieces : list nat) (cls : nat)
+    (* refCountDone fed with the piece outcomes (0 ok, 1 failed, 2 shutdown) in completion order; class received by the request's Done *)
 | CSend (rs : list nat) (stop : option nat) (tail : nat) (cls attempts : nat).
     (* one Send of a (possibly concurrent) retry scenario: attempt results 0 ok / 1 permanent / 2 retryable,
        stop = attempts started when Shutdown was called, tail 2 = max elapsed time / 3 = context cancelled;
@@ -110,6 +112,7 @@ Inductive vcase :=
 Definition send_end_of (n : nat) : send_end :=
   match n with 0 => SendOk | 1 => SendPermanent | 2 => SendNoMoreRetries | 3 => SendCtxDone | _ => SendStopped end.
 Definition attempt_of (n : nat) : attempt := match n with 0 => AOk | 1 => APermanent | _ => ARetryable end.
+Definition outcome_of_code (n : nat) : outcome := match n with 0 => OOk | 1 => OFailed | _ => OShutdown end.
 Definition outcome_code (o : outcome) : nat := match o with OOk => 0 | OFailed => 1 | OShutdown => 2 end.
     (* observed itemIndexToBytes n, itemIndexArrayToBytes l *)
 
@@ -138,6 +141,7 @@ Definition check_case (c : vcase) : bool :=
        end)
   | CEnc n l b1 b2 => bytes_eqb (itemIndexToBytes n) b1 && bytes_eqb (itemIndexArrayToBytes l) b2
   | CRetry sc _ cls => Nat.eqb (outcome_code (outcome_of_send (send_end_of sc))) cls
+  | CDone pieces cls => Nat.eqb (outcome_code (combine_outcomes (map outcome_of_code pieces))) cls
   | CSend rs stop tail cls attempts =>
       let '(e, k) := send_model (map attempt_of rs) stop (send_end_of tail) 0 in
       Nat.eqb (outcome_code (outcome_of_send e)) cls && Nat.eqb k attempts
@@ -160,6 +164,7 @@ Definition model_out (c : vcase) : vout :=
   | CDec buf _ _ => ODec (bytesToItemIndex buf) (bytesToItemIndexArray buf)
   | CEnc n l _ _ => OEnc (itemIndexToBytes n) (itemIndexArrayToBytes l)
   | CRetry sc _ _ => ORetry (outcome_code (outcome_of_send (send_end_of sc)))
+  | CDone pieces _ => ORetry (outcome_code (combine_outcomes (map outcome_of_code pieces)))
   | CSend rs stop tail _ _ =>
       let '(e, k) := send_model (map attempt_of rs) stop (send_end_of tail) 0 in
       OSend (outcome_code (outcome_of_send e)) k
